@@ -106,7 +106,7 @@ Definition is_lt (c : comparison) : bool := match c with Lt => true | _ => false
 Lemma compare_agree a : forall t b, typed a t -> typed b t -> comparable t = true ->
   exists c, v_compare (erase a) (erase b) = Some c /\ py_eq a b = is_eq c /\ py_lt a b = is_lt c.
 Proof.
-  induction a as [z|z|z|z|s|s|s|s|b0| |x y IHx IHy|t0|x IHx|x t0 IHx|t0 x IHx|t0 l IHl] using pval_ind';
+  induction a as [z|z|z|z|s|s|s|s|b0| |x y IHx IHy|t0|x IHx|x t0 IHx|t0 x IHx|t0 l IHl|t0 l IHl|kt vt l IHl] using pval_ind';
     intros t b Ha Hb Hc; pose proof Ha as Ha'; unfold typed in Ha'; destruct t; simpl in Ha'; try discriminate Ha';
     simpl in Hc; try discriminate Hc.
   - apply typed_int_inv in Hb as [w ->]. simpl. exists (Z.compare z w). split; [reflexivity|].
@@ -376,7 +376,7 @@ Lemma zcmp_agree i z : py_zcmp i z = zcmp i z.
 Proof. destruct i; simpl; try reflexivity; try apply Z.gtb_ltb; apply Z.geb_leb. Qed.
 
 Lemma simple_agree i k fn s s1 vis :
-  py_simple e i = Some (k, fn) -> tc_simple i s = Some s1 -> styped vis s ->
+  py_simple e i = Some (k, fn) -> tc_simple true i s = Some s1 -> styped vis s ->
   exists args rest, vis = args ++ rest /\ length args = k /\
     match ref_simple e i (map erase vis) with
     | Done r => exists outs, fn args = POk outs /\ map erase (outs ++ rest) = r /\ styped (outs ++ rest) s1
@@ -387,16 +387,20 @@ Proof.
   unfold styped. intros Hpy Htc Hs.
   destruct i; simpl in Hpy; try discriminate Hpy; injection Hpy as <- <-;
     first [ match type of Htc with
-            | tc_simple (I_PAIRN _) _ = _ => cbn [tc_simple] in Htc
-            | tc_simple (I_UNPAIRN _) _ = _ => cbn [tc_simple] in Htc
-            | tc_simple (I_GETN _) _ = _ => cbn [tc_simple] in Htc
-            | tc_simple (I_UPDATEN _) _ = _ => cbn [tc_simple] in Htc
+            | tc_simple _ (I_PAIRN _) _ = _ => cbn [tc_simple] in Htc
+            | tc_simple _ (I_UNPAIRN _) _ = _ => cbn [tc_simple] in Htc
+            | tc_simple _ (I_GETN _) _ = _ => cbn [tc_simple] in Htc
+            | tc_simple _ (I_UPDATEN _) _ = _ => cbn [tc_simple] in Htc
             end
           | simpl in Htc ].
   - (* SWAP *) tc_cases Htc. injection Htc as <-. inv_f2. give_args. simpl.
     eexists; split; [reflexivity | split; [reflexivity | repeat constructor; assumption]].
   - (* PUSH *) tc_cases Htc. injection Htc as <-. give_args. simpl.
-    destruct (py_of_data_typed d t Heqb) as (v & E & T & R). rewrite E.
+    apply andb_prop in Heqb as [Hd Hn].
+    assert (Hn' : no_coll t = true).
+    { clear - Hn. simpl in Hn. apply negb_true_iff in Hn. induction t; simpl in *; try reflexivity; try discriminate;
+        try (apply orb_false_elim in Hn as [H1 H2]; rewrite IHt1, IHt2 by assumption; reflexivity); auto. }
+    destruct (py_of_data_typed d t Hd Hn') as (v & E & T & R). rewrite E.
     eexists; split; [reflexivity | split; [simpl; rewrite R; reflexivity | constructor; assumption]].
   - (* PAIR *) tc_cases Htc. injection Htc as <-. inv_f2. give_args. simpl. finish.
   - (* UNPAIR *) tc_cases Htc. injection Htc as <-. inv_f2. inv_ty. give_args. simpl.
@@ -459,6 +463,12 @@ Proof.
     apply typed_list_intro. constructor; assumption.
   - (* SIZE *) tc_cases Htc; injection Htc as <-; inv_f2; inv_ty; give_args; simpl;
       (eexists; split; [reflexivity | split; [simpl; rewrite ?map_length; reflexivity | constructor; [apply typed_nat_intro; lia | assumption]]]).
+  - (* EMPTY_SET *) discriminate Htc.
+  - (* EMPTY_MAP *) discriminate Htc.
+  - (* MEM *) discriminate Htc.
+  - (* GET *) discriminate Htc.
+  - (* UPDATE *) discriminate Htc.
+  - (* GET_AND_UPDATE *) discriminate Htc.
   - (* ADD *) unfold add_ty in Htc. tc_cases Htc; injection Htc as <-; inv_f2; inv_ty; give_args; simpl; unfold py_arith; simpl;
       try ((rewrite ?nat_from_ok by lia);
            solve [eexists; split; [reflexivity | split; [reflexivity | constructor; [try (apply typed_nat_intro; lia); reflexivity | assumption]]]]).
@@ -634,15 +644,15 @@ Proof.
   apply typed_bytes_inv in Hx as [s ->]. destruct IH as (t & E1 & E2). simpl. rewrite E1, E2. simpl. eauto.
 Qed.
 
-Lemma py_simple_none_tc i s : py_simple e i = None -> is_shuffle i = false -> i <> I_CONCAT -> tc_simple i s = None.
+Lemma py_simple_none_tc i s : py_simple e i = None -> is_shuffle i = false -> i <> I_CONCAT -> tc_simple true i s = None.
 Proof. destruct i; simpl; intros; try discriminate; try reflexivity. congruence. Qed.
 
 Lemma sim_simple i s R pre vis :
-  option_map Typed (tc_simple i s) = Some R -> styped vis s -> is_shuffle i = false -> i <> I_CONCAT ->
+  option_map Typed (tc_simple true i s) = Some R -> styped vis s -> is_shuffle i = false -> i <> I_CONCAT ->
   sim_rel R pre (ref_simple e i (map erase vis))
           (match py_simple e i with Some (k, fn) => py_exec_simple k fn (mkst pre vis) | None => PError end).
 Proof.
-  intros Htc Hs Hsh Hc. destruct (tc_simple i s) as [s1|] eqn:E; [|discriminate]. injection Htc as <-.
+  intros Htc Hs Hsh Hc. destruct (tc_simple true i s) as [s1|] eqn:E; [|discriminate]. injection Htc as <-.
   destruct (py_simple e i) as [[k fn]|] eqn:Hpy; [|rewrite py_simple_none_tc in E by assumption; discriminate].
   destruct (simple_agree i k fn s s1 vis Hpy E Hs) as (args & rest & -> & L & H).
   unfold py_exec_simple. rewrite (pop_mkst pre args rest k L).
@@ -652,11 +662,11 @@ Proof.
 Qed.
 
 Lemma sim_shuffle f i s R pre vis :
-  is_shuffle i = true -> option_map Typed (tc_simple i s) = Some R -> styped vis s ->
+  is_shuffle i = true -> option_map Typed (tc_simple true i s) = Some R -> styped vis s ->
   sim_rel R pre (ref_simple e i (map erase vis)) (py_eval e (S f) i (mkst pre vis)).
 Proof.
   intros Hsh Htc Hs.
-  assert (Et : tc_simple i s = shuffle i s) by (destruct i; try discriminate Hsh; reflexivity).
+  assert (Et : tc_simple true i s = shuffle i s) by (destruct i; try discriminate Hsh; reflexivity).
   assert (Er : forall v, ref_simple e i v = match shuffle i v with Some s' => Done s' | None => Stuck end)
     by (destruct i; try discriminate Hsh; reflexivity).
   rewrite Et in Htc. rewrite Er, shuffle_map.
@@ -833,7 +843,7 @@ Section Sim.
           - congruence. }
         simpl. exists (w :: rest). repeat split; auto. constructor; assumption.
     - (* ITER *)
-      destruct s as [|[] r]; try discriminate. inversion Hs as [|v ? rest ? Hv Hr]; subst.
+      destruct s as [|[] r]; try discriminate. cbv beta iota in Htc. inversion Hs as [|v ? rest ? Hv Hr]; subst.
       apply typed_list_inv' in Hv as (l & -> & Hl). simpl. rewrite pop1_mkst.
       destruct (typecheck_gen true c (a :: r)) as [Rc|] eqn:Ec; [|discriminate].
       assert (HR : R = Typed r /\ (Rc = Typed r \/ Rc = Failing)).
@@ -861,7 +871,7 @@ Section Sim.
           constructor; [apply typed_list_intro; assumption | assumption].
       + destruct o; try contradiction; simpl; [destruct H as (pv & -> & <-); simpl; eauto | rewrite H; reflexivity | rewrite H; reflexivity].
     - (* CONCAT *)
-      unfold option_map in Htc. destruct (tc_simple I_CONCAT s) as [s1|] eqn:E; [|discriminate]. injection Htc as <-.
+      unfold option_map in Htc. destruct (tc_simple true I_CONCAT s) as [s1|] eqn:E; [|discriminate]. injection Htc as <-.
       simpl in E. destruct s as [|[] r]; try discriminate.
       + destruct r as [|[] r]; try discriminate. injection E as <-.
         inversion Hs as [|v ? rest0 ? Hv Hr0]; subst. inversion Hr0 as [|w ? rest ? Hw Hr]; subst.
@@ -964,9 +974,20 @@ Proof.
 Qed.
 
 (* the programs accepted by typecheck_nr are well-typed Michelson *)
+Lemma tc_simple_sub i s x : tc_simple true i s = Some x -> tc_simple false i s = Some x.
+Proof.
+  destruct i; simpl; try (intros H; exact H); try discriminate.
+  - (* PUSH *) destruct (data_has_type t d); simpl; [|discriminate]. destruct (has_coll t); simpl; [discriminate | auto].
+  - (* SIZE *) destruct s as [|[] r]; auto; discriminate.
+Qed.
+
 Lemma tc_nr_sub c : forall s R, typecheck_gen true c s = Some R -> typecheck_gen false c s = Some R.
 Proof.
-  induction c; intros s R H; cbn [typecheck_gen] in *; try assumption.
+  induction c; intros s R H; cbn [typecheck_gen] in *;
+    try (unfold option_map in *;
+         match type of H with context [tc_simple true ?i ?s] =>
+           destruct (tc_simple true i s) eqn:E; [rewrite (tc_simple_sub _ _ _ E); assumption | discriminate] end);
+    try assumption.
   - destruct (typecheck_gen true c1 s) as [[s1|]|] eqn:E; try discriminate; rewrite (IHc1 _ _ E); auto.
   - destruct (n <=? length s); [|discriminate].
     destruct (typecheck_gen true c (skipn n s)) as [[r|]|] eqn:E; try discriminate. rewrite (IHc _ _ E). assumption.
@@ -990,7 +1011,7 @@ Proof.
     destruct (typecheck_gen true c r) as [x|] eqn:E1; [|discriminate]. rewrite (IHc _ _ E1). assumption.
   - destruct s as [|[] r]; try discriminate.
     destruct (typecheck_gen true c (a :: r)) as [x|] eqn:E1; [|discriminate]. rewrite (IHc _ _ E1). assumption.
-  - destruct s as [|[] r]; try discriminate.
+  - destruct s as [|[] r]; try discriminate. cbv beta iota in *.
     destruct (typecheck_gen true c (a :: r)) as [x|] eqn:E1; [|discriminate]. rewrite (IHc _ _ E1). assumption.
   - destruct s as [|[] r]; try discriminate.
     destruct (typecheck_gen true c (a :: r)) as [[[|b r1]|]|] eqn:E1; try discriminate. rewrite (IHc _ _ E1).
